@@ -19,6 +19,46 @@ RULE = ("instances = stores to the handle field, call sites of open/close, decis
         "guards; non-trivial = who-may-call/path/polarity obligation")
 
 
+def _open_store_ok(b, bb, h, some_bbs):
+    """a store to the handle inside open(): either Some(reader) where the reader is the one already held or one built
+    while the handle was empty, or the None that `take()` leaves behind when every successful return is preceded by
+    a store of Some."""
+    none_facts = ('self.%s is None' % h, 'take(self.%s) is None' % h)
+    held = ('self.%s?' % h, 'take(self.%s)?' % h)
+    for sbb, ch, val, st in util.self_field_stores(b):
+        if sbb != bb or ch[0] != h:
+            continue
+        if val[0] == 'aggr' and val[2].endswith('Option::None'):
+            cs = b.call_at.get(bb)
+            if cs is None or not re.search(r'option::Option::<.*>::take$', cs.name):
+                return False
+            oks = [d[1] for d in b.ret_defs() if d[0] == 'assign' and canon(b.rvalue_expr(d[3])).startswith('Result::Ok{')]
+            if not oks or not some_bbs:
+                return False
+            reach = set()
+            for s2 in b.succ.get(bb, []):
+                reach |= b.reach_from(s2, avoid=some_bbs)
+            if reach & set(oks):
+                return False
+            continue
+        if not (val[0] == 'aggr' and val[2].endswith('Option::Some') and val[3]):
+            return False
+        x = val[3][0][1]
+        alts = list(x[1]) if x[0] == 'phi' else [x]
+        g_here = util.guards_at(b, bb)
+        for a in alts:
+            ca = canon(a)
+            if ca in held:
+                continue
+            gs = set(g_here)
+            for cs in b.calls:
+                if canon(b.call_expr(cs)) == ca:
+                    gs |= set(util.guards_at(b, cs.bb))
+            if not any(f in gs for f in none_facts):
+                return False
+    return True
+
+
 def rule_open(ctx):
     prog = ctx.prog
     blk = 'blockchain::parser::blkfile::BlkFile'
@@ -48,13 +88,13 @@ def rule_open(ctx):
         for val, g, b, bb in ws:
             ctx.touch(b)
             if fn == 'open':
-                ctx.check('open', 'open-sets-some-when-none', val.startswith('Option::Some{') and 'self.%s is None' % h in g, (b, bb), 'open: %s under %s' % (val[:60], g))
+                ctx.check('open', 'open-sets-some-when-none', _open_store_ok(b, bb, h, [w[3] for w in ws if w[0].startswith('Option::Some{')]), (b, bb), 'open: %s under %s' % (val[:60], g))
             elif fn == 'close':
                 ctx.check('open', 'close-sets-none', val == 'Option::None{}', (b, bb), 'close: %s' % val)
     op = prog.one('BlkFile::open')
     callers = prog.callers_of(op)
     ctx.check('open', 'open-only-from-read_block', len(callers) == 1 and callers[0].body.path.endswith('BlkFile::read_block'), op, 'callers of open: %s' % [c.body.path for c in callers])
-    ctx.check('open', 'open-returns-handle', 'Result::Ok{0: self.%s?}' % h in canon(op.ret_expr()), op, 'open returns the stored handle')
+    ctx.check('open', 'open-returns-handle', ('Result::Ok{0: self.%s?}' % h in canon(op.ret_expr()) or 'Result::Ok{0: insert(self.%s, ' % h in canon(op.ret_expr())), op, 'open returns the stored handle')
     nw = prog.one('BlkFile::new')
     ctx.check('open', 'constructed-closed', '%s: Option::None{}' % h in canon(nw.ret_expr()), nw, canon(nw.ret_expr()))
     # the file handle opened is this file's path
